@@ -249,7 +249,7 @@ class World:
             return os.path.join(self.base, "elsewhere"), ["-f", self.path("workflow.py")]
         return self.proj, []
 
-    def nested_gwf(self, argv):
+    def nested_gwf(self, argv, readonly=True):
         """Another gwf process (a second terminal) runs from start to end while the current invocation is
         between two of its steps.  Everything that belongs to one invocation is saved and restored."""
         keep = ("seam_count", "seam_log", "kill_at", "intr_at", "io_fault", "frozen", "accepted_now", "in_invocation",
@@ -275,7 +275,7 @@ class World:
             if lsaved:
                 self.local.n_readline, self.local.reply_faults = lsaved
         self.trace.log("nested_end", exit=res.exit_code, accepted=res.accepted)
-        if res.accepted or res.cancel_requests:
+        if readonly and (res.accepted or res.cancel_requests):
             self.flag("C05", "preview_touched_scheduler", f"gwf {' '.join(argv)} (second terminal) submitted {res.accepted} "
                       f"/ cancelled {res.cancel_requests}")
         if res.exception is not None or res.exit_code != 0:
@@ -552,14 +552,27 @@ class World:
         return [ln.split("Would submit ", 1)[1].strip() for ln in output.splitlines() if "Would submit " in ln]
 
     def read_tracked(self):
+        """The recorded job ids: the state file with the journal of unsaved submissions folded in."""
         p = self.path(f".gwf/{self.backend}-backend-tracked.json")
         try:
             with fsx._real_open(p) as f:
-                return json.load(f)
+                tracked = json.load(f)
         except FileNotFoundError:
-            return {}
+            tracked = {}
         except ValueError:
             return {"__unreadable__": True}
+        try:
+            with fsx._real_open(p + ".journal") as f:
+                for line in f:
+                    try:
+                        name, jid = json.loads(line)
+                    except ValueError:
+                        break
+                    if isinstance(tracked, dict):
+                        tracked[name] = jid
+        except FileNotFoundError:
+            pass
+        return tracked
 
     def read_hashes(self):
         p = self.path(".gwf/spec-hashes.json")
